@@ -86,31 +86,37 @@ struct [[nodiscard]] expected : destructor_crtp<E, T> {
 	}
 
 	expected &operator= (const expected &other) {
-		if(!indicates_error(other.e_)) {
+		// Note that other may be owned by our current value:
+		// do not access it after that value has been destructed.
+		E e = other.e_;
+		if(!indicates_error(e)) {
 			T temp{*std::launder(reinterpret_cast<const T *>(other.stor_))};
 			if(!indicates_error(e_))
 				std::launder(reinterpret_cast<T *>(stor_))->~T();
-			e_ = other.e_;
+			e_ = e;
 			new (stor_) T{std::move(temp)};
 		}else{
 			if(!indicates_error(e_))
 				std::launder(reinterpret_cast<T *>(stor_))->~T();
-			e_ = other.e_;
+			e_ = e;
 		}
 		return *this;
 	}
 
 	expected &operator= (expected &&other) {
-		if(!indicates_error(other.e_)) {
+		// Note that other may be owned by our current value:
+		// do not access it after that value has been destructed.
+		E e = other.e_;
+		if(!indicates_error(e)) {
 			T temp{std::move(*std::launder(reinterpret_cast<T *>(other.stor_)))};
 			if(!indicates_error(e_))
 				std::launder(reinterpret_cast<T *>(stor_))->~T();
-			e_ = other.e_;
+			e_ = e;
 			new (stor_) T{std::move(temp)};
 		}else{
 			if(!indicates_error(e_))
 				std::launder(reinterpret_cast<T *>(stor_))->~T();
-			e_ = other.e_;
+			e_ = e;
 		}
 		return *this;
 	}
